@@ -1,6 +1,6 @@
 """C12 - patterns, switch, runtime type annotations (static clauses)."""
 import re
-from .core import (CheckError, find_match, arm_region, pat_str, strip_ref, short, only_when,
+from .core import (scope_constructors, CheckError, find_match, arm_region, pat_str, strip_ref, short, only_when,
                    Registry, every_path_passes_correlated, pat_subsumes, pat_disjoint, pat_paths, origins)
 
 META = {
@@ -259,7 +259,7 @@ def run(F, rep, tier):
             if nm == 'Switch':
                 reg_ = arm_region(F, eb, me, i)
                 cs = eb.calls_in(reg_)
-                wp = [c for c in cs if c.matches('core::Env::with_parent')]
+                wp = [c for c in cs if (c.target in scope_constructors(F))]
                 rev = [c for c in cs if c.matches('~::rev$')]
                 asg = [c for c in cs if c.matches('eval::assign')]
                 errs = [c for c in cs if c.matches('~NErr::value_error$', '~NErr::\\w+_error$', 'core::NErr::throw')]
@@ -271,7 +271,7 @@ def run(F, rep, tier):
             if nm == 'Try':
                 reg_ = arm_region(F, eb, me, i)
                 cs = eb.calls_in(reg_)
-                wp = [c for c in cs if c.matches('core::Env::with_parent')]
+                wp = [c for c in cs if (c.target in scope_constructors(F))]
                 asg = [c for c in cs if c.matches('eval::assign')]
                 if len(wp) == 1 and asg and all(eb.dominates(wp[0].bb, c.bb) for c in asg):
                     rep.ok('R12.4', 'Try', 'catch pattern bound in a child scope')
@@ -419,7 +419,7 @@ def run(F, rep, tier):
                 for c in els:
                     seen7 += 1
                     og = origins(efb, c.args[0])
-                    fresh = og and all(o[0] == 'call' and o[1].endswith('Env::with_parent') for o in og)
+                    fresh = og and all(o[0] == 'call' and (o[1] in scope_constructors(F)) for o in og)
                     if efb.on_cycle(c.bb) and fresh:
                         rep.ok('R12.7', 'evaluate_for %s' % v, 'eval_lvalue inside the loop, in the per-iteration scope')
                     else:
